@@ -243,7 +243,17 @@ def check_converter_forms(chk):
          ragged, {1: up, 2: up}),
         ('convert over short rows', lambda kw: etl.convert(ragged, {'a': up, 'b': up}, **kw), ragged, {1: up, 2: up}),
     ]
-    for name, mk, table, convs in forms:
+    # failures that do NOT depend on the cell value alone (the same value fails in one row and converts in another)
+    tq = [['r', 'a', 'parts'], [1, 6, 0], [2, 6, 3], [3, 6, 0], [4, 6, 2], [5, True, 1], [6, 1, 1], [7, 1.0, 1]]
+    forms_extra = [
+        ('convert(a, v / row.parts, pass_row)', lambda kw: etl.convert(tq, 'a', lambda v, row: v / row.parts, pass_row=True, **kw), tq,
+         {1: None}, lambda row: {1: (lambda v: v / row[2])}),
+        ('convert(a, bit_length) on 1 / True / 1.0', lambda kw: etl.convert(tq, 'a', 'bit_length', **kw), tq, {1: lambda v: v.bit_length()}, None),
+        ('fieldmap(a -> {dict}) with unhashable cells', lambda kw: etl.fieldmap([['r', 'a'], [1, 'x'], [2, ['u']], [3, {'d': 1}], [4, 'y']],
+                                                                                 OrderedDict([('r', 'r'), ('a', ('a', {'x': 'X'}))]), **kw),
+         [['r', 'a'], [1, 'x'], [2, ['u']], [3, {'d': 1}], [4, 'y']], {1: lambda v: {'x': 'X'}[v] if v in {'x': 'X'} else v}, None),
+    ]
+    for name, mk, table, convs, rowconvs in [f + (None,) for f in forms] + forms_extra:
         is_fieldmap = name.startswith('fieldmap')
         width = len(table[0])
         for policy in ('false', 'true', 'inline'):
@@ -265,10 +275,13 @@ def check_converter_forms(chk):
                         for row in table[1:]:
                             cells = list(row) + ([None] * (width - len(row)) if is_fieldmap else [])
                             out, failed = [], False
+                            cv = rowconvs(row) if rowconvs else convs
+                            if is_fieldmap and len(table[0]) == 2:
+                                cells = cells[:2]
                             for j, c in enumerate(cells):
-                                if j in convs:
+                                if j in cv:
                                     try:
-                                        out.append(convs[j](c))
+                                        out.append(cv[j](c))
                                     except Exception as e:
                                         failed = True
                                         out.append('EXC' if policy == 'inline' else ev)
@@ -299,6 +312,48 @@ def check_converter_forms(chk):
                                       '%s policy=%s (%s) errorvalue=%r: delivered %r raised=%s, definition %r raised=%s'
                                       % (name, policy, 'config default' if via_config else 'argument', ev, got, raised, want, want_raise),
                                       {'kind': 'converter-form', 'name': name})
+
+
+def check_convertnumbers(chk):
+    """convertnumbers (strict or not) takes its policy like every other conversion: argument, else petl.config."""
+    import petl as etl
+    import petl.config
+    t = [['a'], [u'1'], [u'x1'], [u'2.5']]
+    for strict in (False, True):
+        for policy in ('false', 'true', 'inline'):
+            for via_config in (False, True):
+                kw = {'strict': strict}
+                saved = petl.config.failonerror
+                try:
+                    if via_config:
+                        petl.config.failonerror = POLICY[policy]
+                    else:
+                        kw['failonerror'] = POLICY[policy]
+                    try:
+                        v = etl.convertnumbers(t, **kw)
+                    finally:
+                        petl.config.failonerror = saved
+                    got, raised = [], False
+                    try:
+                        for r in list(iter(v))[1:]:
+                            got.append('EXC' if isinstance(r[0], BaseException) else r[0])
+                    except Exception:
+                        raised = True
+                except Exception as e:
+                    got, raised = 'harness-visible %r' % (e,), None
+                if not strict:
+                    want, want_raise = [1, u'x1', 2.5], False            # non-strict: an unparseable value is left as it is
+                elif policy == 'true':
+                    want, want_raise = None, True
+                else:
+                    want, want_raise = [1, ('EXC' if policy == 'inline' else None), 2.5], False
+                chk.count(('convertnumbers', strict, policy, via_config))
+                chk.replayed += 1
+                if raised != want_raise or (want is not None and got != want):
+                    chk.violation({'op': 'convertnumbers', 'policy': policy, 'kind': 'converter-form'},
+                                  'convertnumbers(strict=%s) policy=%s (%s): delivered %r raised=%s, definition %r raised=%s'
+                                  % (strict, policy, 'config default' if via_config else 'argument', got, raised, want, want_raise),
+                                  {'kind': 'converter-form', 'name': 'convertnumbers'})
 
 
 def run(tier, seed):
@@ -335,6 +390,7 @@ def run(tier, seed):
                     chk.replayed += 1
     chk.sample({'kind': 'failonerror-behaviour', 'case': cases[len(cases) // 2]})
     check_converter_forms(chk)
+    check_convertnumbers(chk)
     traces = record_traces(3000 if full else 400, seed)
     validate_traces(chk, traces, seed)
     chk.exhaustive = True
